@@ -486,6 +486,12 @@ impl PreferenceManager {
                     let language = language.split('-').next().unwrap_or(language);
                     return PreferenceManager::unzip_files(path, language, default_lang);
                 }
+                if default_lang.is_some() && is_dir_shim(&dir) {
+                    // The directory exists but has neither a zip file nor rule files (e.g., "zh" only has the regional dir "zh/tw").
+                    // That is the same situation as a language that isn't known: find_file() falls back to the default language.
+                    warn!("Couldn't find rules for language {} in {} -- using the default language", language, dir.display());
+                    return Ok(false);
+                }
                 bail!("Couldn't open zip file {}: {}.", zip_file_string, e)
             },
             Ok(result) => {
